@@ -1549,8 +1549,9 @@ class MPO(MPSGeometry):
             num_sites = self.L
         elif max_range is not None and max_range < np.inf:
             num_sites = self.L + 2 * max_range
-        elif self.max_range is not None and self.max_range < np.inf:
-            num_sites = self.L + 2 * self.max_range
+        elif all(r is not None and r < np.inf for r in (self.max_range, other.max_range)):
+            # need to cover the terms of *both* MPOs
+            num_sites = self.L + 2 * max(self.max_range, other.max_range)
         else:
             num_sites = self.L + 2 * self.L
         ov = self.overlap(other, understood_infinite=True, num_sites=num_sites)
